@@ -169,6 +169,10 @@ pub trait Property: Sync {
     fn chunk(&self, _tier: Tier) -> u64 {
         2000
     }
+    /// chunk size for the chunk starting at `lo` (heavy cases first, small chunks)
+    fn chunk_at(&self, tier: Tier, _lo: u64) -> u64 {
+        self.chunk(tier)
+    }
     /// seconds without progress before a worker is declared hung on its case
     fn hang_secs(&self, _tier: Tier) -> u64 {
         20
@@ -359,7 +363,6 @@ fn run_cases_profile(
     errors: &mut Vec<String>,
 ) {
     let total = p.cases(tier);
-    let chunk = p.chunk(tier).max(1);
     let ncpu = std::thread::available_parallelism()
         .map(|n| n.get())
         .unwrap_or(4)
@@ -369,13 +372,18 @@ fn run_cases_profile(
 
     // chunks are handed out in an order rotated by the seed; the seed never
     // selects cases, only which worker gets which chunk.
-    let nchunks = total.div_ceil(chunk);
-    let mut pending: Vec<(u64, u64)> = (0..nchunks)
-        .map(|c| {
-            let c = (c + seed) % nchunks.max(1);
-            (c * chunk, ((c + 1) * chunk).min(total))
-        })
-        .collect();
+    let mut chunks: Vec<(u64, u64)> = Vec::new();
+    let mut lo = 0u64;
+    while lo < total {
+        let hi = (lo + p.chunk_at(tier, lo).max(1)).min(total);
+        chunks.push((lo, hi));
+        lo = hi;
+    }
+    if !chunks.is_empty() {
+        let k = (seed as usize) % chunks.len();
+        chunks.rotate_left(k);
+    }
+    let mut pending: Vec<(u64, u64)> = chunks;
     pending.reverse();
 
     let mut slots: Vec<Option<Slot>> = (0..ncpu).map(|_| None).collect();
